@@ -117,6 +117,19 @@ func main() {
 		}
 		roundTrip(ty, tMin+r.U64()%(tMax-tMin+1), r.Intn(4096))
 	}
+	// delete-marked entries (".d" + the rest of the name) are encoded under their original name
+	for i := 0; i < nRand/4; i++ {
+		t, p := tMin+r.U64()%(tMax-tMin+1), r.Intn(4096)
+		orig := fn28(name("MG"[r.Intn(2)], t, p))
+		del := *orig
+		del[0], del[1] = '.', 'd'
+		a1, k := do("toaid "+hx.Hex(del[:]), true)
+		a2 := hx.Hex([]byte(bbs.ToArticleID(fn28(name('M', t, p)))))
+		if a1 != a2 {
+			run.Fail(k, "deleted-id", fmt.Sprintf("delete-marked %s has id %s, its original name has %s", del[:18], a1, a2))
+		}
+	}
+
 	// injectivity sample: neighbours differ
 	seen := map[string]string{}
 	for i := 0; i < 2000; i++ {
